@@ -23,7 +23,7 @@ RULE = ("fits (and sparse paths) of every batched family and the nonparametric o
 ASSUMPTIONS = ["rows of the generated X are pairwise distinct, so a batch row identifies its sample"]
 EVAL_COUNTER = "epochs"
 REQUIRED = {"quick": {"epochs": 1500, "epochs_multi_batch": 600, "affinity_blocks_checked": 1500, "consumer_steps": 2500,
-                      "decorated_consumer_steps": 200, "fits_step_count_checked": 500, "nonparametric_epochs": 100,
+                      "decorated_consumer_steps": 200, "batch_size_set_after_construction": 120, "batch_size_set_after_decoration": 25, "fits_step_count_checked": 500, "nonparametric_epochs": 100,
                       "path_validation_blocks": 200, "coded_affinity_fits": 25, "tail_batches": 200},
             "thorough": {"epochs": 30000, "consumer_steps": 60000, "path_validation_blocks": 4000}}
 SHARD_TIMEOUT = {"quick": 1200, "thorough": 7000}
@@ -277,13 +277,24 @@ def run_case(case, ctx, st):
         y = gen.coded_affinity(n, ordered=bool(rng.random() < 0.5))
         coded = True
         ctx.count("coded_affinity_fits")
-    est = gen.build_estimator(name, params)
+    # the batch size is a hyperparameter like any other: it may be given at construction or later through set_params
+    # (also after the model was decorated), and it is the value in force when fit runs that counts
+    late_bs = name not in gen.NONPARAMETRIC and rng.random() < 0.4
+    build_params = dict(params)
+    if late_bs:
+        build_params["batch_size"] = None if rng.random() < 0.5 else int(rng.integers(1, n + 4))
+    est = gen.build_estimator(name, build_params)
     use_path = name in gen.SPARSE and i % 3 == 0 and n >= 4 and d >= 2
     decorated = (not use_path) and rng.random() < 0.3 and n >= 4
     if decorated:
         from gemclus import add_mlcl_constraint
         perm = [int(x) for x in rng.permutation(n)]
         est = add_mlcl_constraint(est, [(perm[0], perm[1])], [(perm[2], perm[3])], float(rng.uniform(0.1, 2)))
+    if late_bs:
+        est.set_params(batch_size=params["batch_size"])
+        ctx.count("batch_size_set_after_construction")
+        if decorated:
+            ctx.count("batch_size_set_after_decoration")
     st.reset()
     st.model = est
     st.n = n
